@@ -1,5 +1,6 @@
 import CkbVerif.Lemmas.IndexerAppend
 import CkbVerif.Lemmas.IndexerScan
+import CkbVerif.Lemmas.IndexerChain
 
 /-!
 # C18 — the indexer's answers equal filtering the chain's live cells and transactions
@@ -19,8 +20,19 @@ Proved here (all unbounded: any store, any block, any script):
 * `prefix_search_overmatch_witness` — in prefix mode the code returns a cell whose script does NOT
   start with the searched script (query args `01 00` vs. cell args `01`): the negation of the naive
   prefix specification; replayed on the real code (corpus/C18/finding-prefix-search-overmatch).
-* `answers_eq_filter_partial`, `rollback_append_partial` — the two main statements, proved ONLY for
-  one concrete two-block chain with a same-block spend (kernel evaluation), i.e. as sanity instances.
+* `capacity_script_len_range_witness`, `tip_garbage_after_rollback_to_empty_witness` — Lean witnesses
+  of the other two known deviations (known_findings.txt), both replayed on the real code.
+* `replay_step_created` / `replay_step_spent` / `replay_step_other` — what one `append` does to the
+  live-cell set (OutPoint rows): outputs of the block become live, live cells spent by a non-cellbase
+  input die, everything else is unchanged — i.e. the step of the direct replay of the chain.
+* `answers_eq_filter_partial` — by induction over ANY chain of blocks, each well-formed for the store
+  it is appended to (`ChainOK`: distinct fresh tx ids, no input referring to a transaction of the same
+  block, …), with the automatic prune interleaved: the exact-mode live-cell scan by lock script
+  returns exactly the rows of the live cells (OutPoint rows = replayed live set) whose lock script is
+  the searched one, with their creation block number / tx index. PARTIAL: blocks WITHOUT same-block
+  spends; lock-script live cells only (type script / tx history rows analogous but not done).
+* `answers_eq_filter_instance`, `rollback_append_partial` — sanity instances on one concrete
+  two-block chain WITH a same-block spend (kernel evaluation).
 
 NOT proved in general (tested by the correspondence harness against an independent replay oracle):
 
@@ -30,8 +42,10 @@ NOT proved in general (tested by the correspondence harness against an independe
       fresh tx ids, fresh header), (∀ k, k.isAnswer → get (rollback (appendCore s b)) k = get s k)
       ∧ tip (rollback (appendCore s b)) = tip s
 
-Missing for both: the refinement "reads from the pre-batch store + in-block fallback lookup ==
-sequential (write-through) semantics" for same-block spends, and the per-transaction inverse lemma.
+Missing: for same-block spends the put-then-delete ORDER inside one batch matters (all lemmas here
+are order-free: `get_commit_all_put` / `get_commit_all_del`), so `txsOps_shape` must be refined with
+positions; for `rollback_append` additionally the characterisation of the rollback batch (which reads
+the Header row's transaction list, the TxHash rows and the ConsumedOutPoint rows written by append).
 -/
 namespace CkbVerif.C18
 open CkbVerif.Indexer CkbVerif.Gen.Indexer
@@ -205,6 +219,72 @@ theorem prefix_search_overmatch_witness :
   ⟨appendCore [] ⟨0, 1, [⟨1, [⟨0, 4294967295⟩], [⟨100, ⟨1, [1]⟩, none, []⟩]⟩]⟩, ⟨1, [1, 0]⟩, ⟨1, 0⟩,
     ⟨0, 0, ⟨100, ⟨1, [1]⟩, none, []⟩⟩, by decide, by decide, by decide⟩
 
+/-! ## the live-cell set follows the replay of the chain (blocks without same-block spends) -/
+
+/-- outputs of the appended block become live cells -/
+theorem replay_step_created (s : Store) (b : Block) (wf : WFAppend s b) (op : OutPoint) (c : Cell)
+    (hc : Created b op c) : get (appendCore s b) (.outPoint op) = some (.cell c) :=
+  outPoint_created s b wf op c hc
+
+/-- live cells spent by a non-cellbase input of the appended block die -/
+theorem replay_step_spent (s : Store) (b : Block) (wf : WFAppend s b) (op : OutPoint) (c : Cell)
+    (hs : SpentIn s b op c) : get (appendCore s b) (.outPoint op) = none :=
+  outPoint_spent s b wf op c hs
+
+/-- every other out-point keeps its state -/
+theorem replay_step_other (s : Store) (b : Block) (wf : WFAppend s b) (op : OutPoint)
+    (hnc : ∀ c, ¬ Created b op c) (hns : ∀ c, ¬ SpentIn s b op c) :
+    get (appendCore s b) (.outPoint op) = get s (.outPoint op) :=
+  outPoint_other s b wf op hnc hns
+
+/-- **answers_eq_filter** (PARTIAL: blocks without same-block spends; live cells by lock script,
+exact mode). After ANY chain of well-formed appends from the empty store (automatic prune included),
+a CellLockScript row is returned by the exact-mode scan for `q` iff it is the row of a live cell
+(an OutPoint row, i.e. a cell of the replayed live set) whose lock script is `q`, created at that
+block number / tx index. Full statement: see the header comment. -/
+theorem answers_eq_filter_partial (keep interval : Nat) (blocks : List Block)
+    (ok : ChainOK keep interval [] blocks) (q sc : Script) (bn txi io t : Nat) :
+    ((Key.cellLock sc bn txi io, Val.tx t) ∈ scan (blocks.foldl (append keep interval) []) (cellPrefix true q) ∧
+      (Key.cellLock sc bn txi io).bytes.length = (cellPrefix true q).length + 16) ↔
+    (sc = q ∧ ∃ c : Cell, get (blocks.foldl (append keep interval) []) (.outPoint ⟨t, io⟩) = some (.cell c) ∧
+      c.out.lock = q ∧ c.bn = bn ∧ c.txIdx = txi) := by
+  have hnd := nodup_chain keep interval blocks [] trivial
+  have hinv := lockInv_chain keep interval blocks [] lockInv_empty ok
+  rw [exact_search_cells, mem_iff_get _ hnd, hinv sc bn txi io t]
+  constructor
+  · rintro ⟨⟨c, hc, hl, hb, ht⟩, rfl⟩
+    exact ⟨rfl, c, hc, hl, hb, ht⟩
+  · rintro ⟨rfl, c, hc, hl, hb, ht⟩
+    exact ⟨⟨c, hc, hl, hb, ht⟩, rfl⟩
+
+/-- `ChainOK` is satisfiable by a non-trivial chain: block 1 spends an output of block 0 and creates
+two cells, block 2 spends one of them -/
+example : ChainOK 1 1 []
+    [ ⟨0, 10, [⟨1, [⟨0, 4294967295⟩], [⟨1000, ⟨1, [1]⟩, none, []⟩]⟩]⟩,
+      ⟨1, 11, [⟨2, [⟨0, 4294967295⟩], []⟩, ⟨3, [⟨1, 0⟩], [⟨100, ⟨1, [1]⟩, some ⟨2, [5]⟩, [7]⟩, ⟨250, ⟨1, [1, 2]⟩, none, []⟩]⟩]⟩,
+      ⟨2, 12, [⟨4, [⟨0, 4294967295⟩], [⟨5, ⟨1, [1]⟩, none, []⟩]⟩, ⟨5, [⟨3, 1⟩], []⟩]⟩ ] :=
+  ⟨wfAppend_of_B _ _ (by decide), wfAppend_of_B _ _ (by decide), wfAppend_of_B _ _ (by decide), trivial⟩
+
+/-! ## Lean witnesses of the other two known deviations of the code (known_findings.txt) -/
+
+/-- **capacity / script_len_range**: `get_cells_capacity` treats the END of `script_len_range` as
+inclusive while `get_cells` treats it as exclusive: with range [0,33) and a cell whose type script has
+raw length 33, `get_cells` returns nothing but `get_cells_capacity` sums the cell. -/
+theorem capacity_script_len_range_witness :
+    ∃ (s : Store) (q : Script) (f : Filter),
+      (getCells s true q true f false 100 none).map (·.1.length) = some 0 ∧
+      getCellsCapacity s true q true f = some 100 :=
+  ⟨appendCore [] ⟨0, 1, [⟨1, [⟨0, 4294967295⟩], [⟨100, ⟨1, []⟩, some ⟨2, []⟩, []⟩]⟩]⟩, ⟨1, []⟩,
+    { scriptLenRange := some (0, 33) }, by decide, by decide⟩
+
+/-- **tip after rolling back the only indexed block**: `rollback` leaves the ConsumedOutPoint rows
+behind and `tip()` does not test the key family, so the tip is decoded from a residue row instead of
+being `None` (what it was before the block was appended). -/
+theorem tip_garbage_after_rollback_to_empty_witness :
+    ∃ (b : Block), tipAsCode [] = .none ∧ tipAsCode (rollback (appendCore [] b)) = .residue 0 :=
+  ⟨⟨0, 1, [⟨1, [⟨0, 4294967295⟩], [⟨100, ⟨1, []⟩, none, []⟩]⟩, ⟨2, [⟨1, 0⟩], [⟨100, ⟨1, []⟩, none, []⟩]⟩]⟩,
+    by decide, by decide⟩
+
 /-! ## the two main statements on a concrete chain (sanity instances only) -/
 
 def exBlock0 : Block :=
@@ -225,8 +305,8 @@ def sameAnswers (a b : Store) : Bool :=
 
 /-- `answers_eq_filter` on the concrete chain exBlock0, exBlock1: the answer rows are exactly the
 live cell 5.0 (created, not spent) with its lock/type index rows and the nine history rows.
-PARTIAL: one instance; the general statement is in the header comment. -/
-theorem answers_eq_filter_partial :
+(A sanity instance with a SAME-BLOCK spend, which the general theorem below does not cover.) -/
+theorem answers_eq_filter_instance :
     sameAnswers (appendCore (appendCore [] exBlock0) exBlock1)
       [ (.outPoint ⟨5, 0⟩, .cell ⟨1, 3, ⟨1, ⟨2, [5]⟩, some ⟨1, [1]⟩, [9]⟩⟩),
         (.cellLock ⟨2, [5]⟩ 1 3 0, .tx 5), (.cellType ⟨1, [1]⟩ 1 3 0, .tx 5),
